@@ -133,10 +133,10 @@ type Realm struct {
 	// Script, if set, names the reply for this request: "" or "good" (normal processing),
 	// "malformed", "notoken", "400", "401", "403", "post404", "500", "302", "307".
 	Script       func(w *World, rl *Realm, ex *Exchange) string
-	NoPOST       bool    // the OAuth2 POST endpoint does not exist (404)
-	Allowed      Set     // if non-nil: requests asking for more than this are refused with 401
-	RequireCreds bool    // 401 unless the request carries the credentials configured for the host
-	Stable       bool    // the same token string is issued again for the same (host, scope text)
+	NoPOST       bool // the OAuth2 POST endpoint does not exist (404)
+	Allowed      Set  // if non-nil: requests asking for more than this are refused with 401
+	RequireCreds bool // 401 unless the request carries the credentials configured for the host
+	Stable       bool // the same token string is issued again for the same (host, scope text)
 	stable       map[string]string
 	Lifetimes    []int   // expires_in values to draw from; -1 = field absent
 	Field        string  // token | access_token | both | "" (drawn per response)
